@@ -174,10 +174,15 @@ func genFaultRead(r *rand.Rand, i int) Scenario {
 	}
 	sc.Ops = append(sc.Ops, Op{Op: "load", File: 1, Seg: seg, Backing: "file"})
 	before := r.Intn(6)
-	if r.Intn(2) == 0 {
+	warm := r.Intn(3)
+	if warm == 0 {
 		for _, f := range sc.Universe {
 			sc.Ops = append(sc.Ops, Op{Op: "contains", Seg: seg, Field: f, Term: B([]byte("x"))}) // the field's FST is cached from here on
 		}
+	} else if warm == 1 {
+		// only the `_id` dictionary is warm when the storage fails: a multi-field DocsMatchingTerms can answer its
+		// `_id` terms (1-hit encoded on a merged segment: no storage needed) and meets the failure at another field
+		sc.Ops = append(sc.Ops, Op{Op: "contains", Seg: seg, Field: "_id", Term: B([]byte("x"))})
 	}
 	sc.Ops = append(sc.Ops, readOps(r, &sc, seg, len(b1), before, &cfg, 100)...)
 	// iterators and readers opened while the storage is healthy are used again after it failed
@@ -243,6 +248,21 @@ func genFaultRead(r *rand.Rand, i int) Scenario {
 			Except: &DropSpec{Kind: "set", Docs: []int{r.Intn(len(b1))}}},
 			Op{Op: "pl_count", Pl: 705}, Op{Op: "it_open", Pl: 705, It: 731}, Op{Op: "it_next", It: 731}, Op{Op: "it_next", It: 731},
 			Op{Op: "it_open", Pl: 705, It: 732, Freq: true, Norm: true, Locs: true}, Op{Op: "it_next", It: 732}, Op{Op: "it_adv", It: 732, D: 2})
+	}
+	if warm == 1 {
+		var ids, others []Pair
+		for _, v := range vocab {
+			if v.Field == "_id" {
+				ids = append(ids, v)
+			} else {
+				others = append(others, v)
+			}
+		}
+		if len(ids) > 0 && len(others) > 0 {
+			o := others[r.Intn(len(others))]
+			sc.Ops = append(sc.Ops, Op{Op: "match", Seg: seg, Pairs: []Pair{ids[0], o, ids[len(ids)-1]}},
+				Op{Op: "match", Seg: seg, Pairs: []Pair{o, ids[0]}})
+		}
 	}
 	// DocsMatchingTerms over a list of several pairs (1-hit and general terms): the whole answer, nothing, or an error
 	if len(vocab) > 2 {
@@ -1214,5 +1234,36 @@ func genBlockDrop(r *rand.Rand, i int) Scenario {
 		}
 	}
 	sc.Ops = append(sc.Ops, Op{Op: "same_obs", In: []int{10, 55}})
+	return sc
+}
+
+// stat_edges: field statistics whose values sit on the varint width steps (127, 128, 129, 16383, 16384, 16385):
+// a segment with exactly v documents (so `_id` has v documents and v occurrences) and a field whose single document
+// carries v occurrences; read on the built, the loaded and the merged segment and added up across them (C16)
+func genStatEdges(r *rand.Rand, i int) Scenario {
+	v := []int{128, 127, 129, 16384, 16383, 16385, 256, 255}[i%8]
+	b := make(Batch, v)
+	for d := 0; d < v; d++ {
+		id := []byte(fmt.Sprintf("s%05d", d))
+		doc := Doc{{Name: "_id", Len: 1, Stored: true, Value: B(id), Terms: []TermOcc{{Term: B(id), Freq: 1, Locs: []Loc{}}}}}
+		if d == v/2 {
+			doc = append(doc, FieldInst{Name: "b", Len: v, Value: Bytes{}, Terms: []TermOcc{{Term: B([]byte("t")), Freq: v - 1, Locs: []Loc{}}, {Term: B([]byte("u")), Freq: 1, Locs: []Loc{}}}})
+		}
+		if d%2 == 0 && d < 256 {
+			doc = append(doc, FieldInst{Name: "c", Len: 1, Value: Bytes{}, Terms: []TermOcc{{Term: B([]byte("w")), Freq: 1, Locs: []Loc{}}}})
+		}
+		b[d] = doc
+	}
+	sc := Scenario{Name: fmt.Sprintf("stat_edges-%d", i), NormKind: "code", Universe: []string{"_id", "b", "c"}, Batches: []Batch{b}, Tags: []string{"stat_edges"}}
+	sc.Ops = append(sc.Ops, Op{Op: "build", Seg: 1, Batch: 0, Mode: 0}, Op{Op: "persist", Seg: 1, File: 1},
+		Op{Op: "load", File: 1, Seg: 2, Backing: []string{"mem", "file"}[i%2]},
+		Op{Op: "merge", File: 2, In: []int{1}, Drops: []DropSpec{{Kind: "nil"}}, Mode: 0, Buf: 4096}, Op{Op: "load", File: 2, Seg: 3, Backing: "mem"},
+		Op{Op: "merge", File: 3, In: []int{2, 3}, Drops: []DropSpec{{Kind: "nil"}, {Kind: "set", Docs: []int{0}}}, Mode: 0, Buf: 4096}, Op{Op: "load", File: 3, Seg: 4, Backing: "mem"})
+	for _, seg := range []int{1, 2, 3, 4} {
+		for _, f := range []string{"_id", "b", "c", "nosuch"} {
+			sc.Ops = append(sc.Ops, Op{Op: "stats", Seg: seg, Field: f})
+		}
+	}
+	sc.Ops = append(sc.Ops, Op{Op: "stats_merge", Seg: 2, Seg2: 3, Field: "_id"}, Op{Op: "stats_merge", Seg: 3, Seg2: 4, Field: "b"})
 	return sc
 }
